@@ -142,10 +142,12 @@ class AioRun:
         self.harness_error = None
         self.record_sites = False
         self.busy = None
+        self.first_issue: dict = {}
 
     # ------------------------------------------------------------------ gate
     async def gate(self, kind, pipe, info):
         self.activity += 1
+        self.first_issue.setdefault(self.world.current_actor, self.world.clock.now)  # when a caller's first network op was *issued*
         if kind == "closed":
             await asyncio.sleep(0)
             return None
@@ -372,7 +374,16 @@ class AioRun:
             self.allow_server_close -= 1
             act[1].server_close()
         elif kind == "advance":
-            self.world.clock.advance(self.advances.pop(0))
+            # time does not jump over a deadline: stop at the earliest timer, keep the remainder for later
+            dt = self.advances.pop(0)
+            now = self.world.clock.now
+            timers = self._timers()
+            if timers:
+                t = min(h._when for h in timers)
+                if now < t < now + dt:
+                    self.advances.insert(0, now + dt - t)
+                    dt = t - now
+            self.world.clock.advance(dt)
 
     async def main(self):
         self.loop = asyncio.get_running_loop()
